@@ -97,6 +97,7 @@ Types ==
       TKvp(TAnyUInt, TAnyUInt), TKvp(TAnyUInt, TMia(TAnyUInt)), TKvp(TU32, TU32), TNeKvp(TAnyUInt, TAnyUInt),
       TNullable(TAnyUInt), TNullable(TMia(TAnyUInt)),
       TKeepRaw(TVec(TU32)), TKeepRaw(TMia(TAnyUInt)), TVec(TKeepRaw(TMia(TAnyUInt))),
+      TKeepRaw(TVec(TKeepRaw(TMia(TAnyUInt)))), TCborWrap(TKeepRaw(TVec(TU32))),
       TAnyCbor, TVec(TAnyCbor),
       TSet(TU32), TNeSet(TU32), TCborWrap(TU32), TCborWrap(TMia(TAnyUInt)), TTagWrap(TU32), TZ1(TU32),
       TOpp, TEmptyMap, TBytes, TInt, TThing>>
